@@ -55,6 +55,8 @@ def gen_payload(rng: random.Random, boundary: bytes, style: str, maxlen: int) ->
         b"y" * rng.choice([1, 7, 30, len(boundary) + 9, len(boundary) + 20]),
         b" ",
         b"\t",
+        # valid multi-byte UTF-8: a cut may fall inside a character of a text field
+        "\u00e9".encode(), "\u20ac".encode(), "\u540d\u524d".encode(), "\U0001f40d".encode(), ("\u2603" * 9).encode(),
     ]
     if style == "crlf":
         atoms += [b"\r", b"\n", b"\n\r", b"\r\r\n", b"x\n", b"\r--" + boundary[:-1], b"\n--" + boundary[:-1]]
